@@ -230,23 +230,20 @@ const std::vector<size_t> ezc3d::ParametersNS::GroupNS::Parameter::dimension() c
 }
 
 bool ezc3d::ParametersNS::GroupNS::Parameter::isDimensionConsistent(size_t dataSize, const std::vector<size_t> &dimension) const {
-    if (dataSize == 0){
-        int dim(1);
-        for (unsigned int i=0; i<dimension.size(); ++i)
-            dim *= dimension[i];
-        if (dimension.size() == 0 || dim == 0)
-            return true;
-        else
-            return false;
-    }
-
-    size_t dimesionSize(1);
-    for (unsigned int i=0; i<dimension.size(); ++i)
-        dimesionSize *= dimension[i];
-    if (dataSize == dimesionSize)
-        return true;
-    else
+    bool hasZero(std::find(dimension.begin(), dimension.end(), 0) != dimension.end());
+    if (dataSize == 0)
+        return dimension.size() == 0 || hasZero;
+    if (hasZero)
         return false;
+
+    // Compare the product of the dimensions with the size of the data (without overflowing)
+    size_t dimesionSize(1);
+    for (unsigned int i=0; i<dimension.size(); ++i){
+        if (dimesionSize > dataSize / dimension[i])
+            return false;
+        dimesionSize *= dimension[i];
+    }
+    return dataSize == dimesionSize;
 }
 
 ezc3d::DATA_TYPE ezc3d::ParametersNS::GroupNS::Parameter::type() const
